@@ -424,10 +424,38 @@ TRUSTED_BASE = [
 ]
 
 
+# --------------------------------------------------------------------------
+# one build of the shared Coq development at a time (concurrent `make`s in one directory corrupt each other)
+# --------------------------------------------------------------------------
+_BUILD_LOCK = {"depth": 0, "fh": None}
+
+
+class build_lock:
+    def __enter__(self):
+        import fcntl
+        if _BUILD_LOCK["depth"] == 0:
+            _BUILD_LOCK["fh"] = open(os.path.join(VERIF, ".build.lock"), "w")
+            fcntl.flock(_BUILD_LOCK["fh"], fcntl.LOCK_EX)
+        _BUILD_LOCK["depth"] += 1
+
+    def __exit__(self, *a):
+        import fcntl
+        _BUILD_LOCK["depth"] -= 1
+        if _BUILD_LOCK["depth"] == 0:
+            fcntl.flock(_BUILD_LOCK["fh"], fcntl.LOCK_UN)
+            _BUILD_LOCK["fh"].close()
+            _BUILD_LOCK["fh"] = None
+
+
 def prologue(ctx, need_go=True):
     """Returns dict with keys: coq_ok, prop_ok, theorems, assumptions_closed,
     axioms, hbin, logs."""
     info = {"coq_ok": False, "prop_ok": False, "theorems": [], "axioms": [], "closed": 0, "hbin": None}
+    with build_lock():
+        return _prologue_locked(ctx, info, need_go)
+
+
+def _prologue_locked(ctx, info, need_go):
     tr, log = go_build_translators(ctx)
     if tr is None:
         raise RuntimeError("translator build failed:\n" + log)
